@@ -111,6 +111,19 @@ CLAIMED['C12'] = dict(
          'off again yields term-identical (hence bit-identical) statistics.',
     design_ref='3 (C12)')
 
+CLAIMED['C05'] = dict(
+    technique='bounded symbolic execution of the real write / '
+              'write_shell_update / resume code over a journalled HDF5 '
+              'model; file-mirrors-state invariant re-established after '
+              'every run() iteration; cells compared as terms',
+    text='From arbitrary invariant states the solver shows that the file '
+         'written by the real code, read by the real resume path, equals '
+         'the live state on every field (including generator state and '
+         'bound proposal caches) after bound insertion, first batch, every '
+         'batch and the end of exploration; with determinism of a step this '
+         'gives bit-identical continuation for every cut point.',
+    design_ref='3 (C05), 2.5')
+
 NOT_APPLICABLE = {
     'C04': 'statement about the distribution of whole-program outputs over '
            'seed ensembles; no bounded symbolic input space decides it '
